@@ -3,14 +3,14 @@
    (theories/Model/C10_PyList.v) is the CPython list.  Both are tied to /repo and to a real Python list on every run
    by props/C10.py (three-way T-seq).  Kind B: lists and Z only -- no Reals, no axioms.
 
-   After the fix commits 639aa3a (slices through slice.indices, Empty() for an empty result) and e8a8671 (extend uses
-   iterable.data) the slice and extend theorems are FULL STRENGTH (no guard).
+   After the fix commits 639aa3a (slices through slice.indices, Empty() for an empty result), 40af48b (the same for
+   SpatialVector.__getitem__) and e8a8671 (extend uses iterable.data) the slice and extend theorems are FULL STRENGTH
+   (no guard, every class).
 
    FULL STATEMENT over all operations (still false of the faithful model, kept visible):
      forall C st ops, run (m_step C) st ops = run s_step st ops.
    It fails for two remaining root causes, each with a _refuted witness below; everything else is under C10_run_refines:
-     (2) cls([]) evaluates arg[0]  (SE3([]), cls([e for e in x]) on an empty x; every empty slice of the classes that
-         override __getitem__ with cls(data[i])),
+     (2) cls([]) evaluates arg[0]  (SE3([]), cls([e for e in x]) on an empty x),
      (4) the guards test len(x) > 1, so an empty object passes as "one value".                                     *)
 From Coq Require Import ZArith List Lia Bool.
 From SM Require Import Model.C10_PyList Model.C10_SMList.
@@ -18,7 +18,7 @@ Import ListNotations.
 Open Scope Z_scope.
 
 Definition SE3like : cls := Build_cls true.       (* poses, quaternions, twists: SMUserList.__getitem__ *)
-Definition SVlike : cls := Build_cls false.       (* SpatialVector family: __getitem__ = cls(data[i]) *)
+Definition SVlike : cls := Build_cls false.       (* SpatialVector family: its own __getitem__ over data[i] *)
 
 (* ---- integer index: IndexError exactly when a list would, otherwise the element a list would give, as one object;
         all lengths, all indices, every class *)
@@ -50,9 +50,9 @@ Proof. repeat split. Qed.
 
 (* ---- slices, FULL STRENGTH: for every list, start, stop and step (omitted, negative, out of range, step 0 included)
         the result, its error kind and the state are those of a Python list *)
-Theorem C10_slice_full : forall C st a b c, own_slice C = true ->
+Theorem C10_slice_full : forall C st a b c,
   m_step C st (GetSlice a b c) = s_step st (GetSlice a b c).
-Proof. intros C st a b c HC. cbn [m_step s_step]. rewrite (slice_full C st a b c HC). reflexivity. Qed.
+Proof. intros C st a b c. cbn [m_step s_step]. rewrite (slice_full C st a b c). reflexivity. Qed.
 Print Assumptions C10_slice_full.
 
 (* every selected position is a position of the list (so no data[k] can raise), all lengths and arguments *)
@@ -74,34 +74,18 @@ Example C10_slice_examples :
   snd (m_step SE3like st (GetSlice (Some (-7)) (Some 7) (Some (-3)))) = Ok (Obj []).
 Proof. vm_compute. repeat split. Qed.
 
-(* classes whose __getitem__ is cls(data[i]) (not touched by the fix): the full statement is false -- an empty result
-   cannot be constructed -- and holds whenever the list's slice is non-empty, errors included *)
-Theorem C10_slice_delegate_refuted : exists st a b c,
-  m_step SVlike st (GetSlice a b c) <> s_step st (GetSlice a b c).
-Proof. exists [1;2;3;4;5], (Some 2), (Some 2), None. vm_compute. discriminate. Qed.
-Print Assumptions C10_slice_delegate_refuted.
-
-Theorem C10_slice_delegate_partial : forall C st a b c,
-  own_slice C = false ->
-  (forall vs, py_getslice st a b c = Ok vs -> vs <> []) ->
-  m_step C st (GetSlice a b c) = s_step st (GetSlice a b c).
-Proof.
-  intros C st a b c HC H. cbn [m_step s_step]. unfold m_getslice. rewrite HC.
-  destruct (py_getslice st a b c) as [[|x t]|e]; [exfalso; apply (H [] eq_refl); reflexivity | |]; reflexivity.
-Qed.
-Print Assumptions C10_slice_delegate_partial.
-
+(* the SpatialVector classes (own_slice = false) are covered by C10_slice_full as well; the cell that was wrong before 40af48b *)
 Example C10_slice_delegate_ex :
   m_step SVlike [1;2;3;4;5] (GetSlice None None (Some (-2))) = ([1;2;3;4;5], Ok (Obj [5;3;1])) /\
-  m_step SVlike [1;2;3;4;5] (GetSlice None None (Some 0)) = ([1;2;3;4;5], Raise ValueError).
+  m_step SVlike [1;2;3;4;5] (GetSlice None None (Some 0)) = ([1;2;3;4;5], Raise ValueError) /\
+  m_step SVlike [1;2;3;4;5] (GetSlice (Some 2) (Some 2) None) = ([1;2;3;4;5], Ok (Obj [])).
 Proof. vm_compute. repeat split. Qed.
 
 (* the property's slice grid (lengths 0..5, start/stop in {None,-7..7}, step in {None,+-1,+-2,+-3}: 6 x 1792 cells),
-   decided completely: the number of cells on which model and list disagree (none for SMUserList.__getitem__;
-   the empty results for the delegating classes) *)
+   decided completely: the number of cells on which model and list disagree (none, for either __getitem__) *)
 Theorem C10_slice_grid_census :
   Z.of_nat (length grid_slices) = 1792 /\
-  Z.of_nat (grid_disagreements SE3like) = 0 /\ Z.of_nat (grid_disagreements SVlike) = 7422.
+  Z.of_nat (grid_disagreements SE3like) = 0 /\ Z.of_nat (grid_disagreements SVlike) = 0.
 Proof. vm_compute. repeat split. Qed.
 Print Assumptions C10_slice_grid_census.
 
@@ -111,7 +95,7 @@ Proof. intros. cbn [m_step]. rewrite m_iter_spec. reflexivity. Qed.
 Print Assumptions C10_iter.
 
 (* ---- every operation, where the code is right.  op_ok excludes exactly: an empty object as the value of
-        setitem/append/insert, construction from an empty list (and, for the delegating classes, an empty slice) *)
+        setitem/append/insert, construction from an empty list *)
 Theorem C10_step_refines : forall C st o, op_ok C st o = true -> m_step C st o = s_step st o.
 Proof. exact step_refines. Qed.
 Print Assumptions C10_step_refines.
